@@ -283,26 +283,79 @@ cls("C15_GlyphSet", fields={"glyphs": Dict(STR, Ref("C15_Glyph"))},
     # `names`: the key SET (quantifying over it, unlike iterating the dict, brings no key-order facts into the obligation)
     derived={"names": lambda ex, st, self: Val(Set(STR), ex.read_field(st, self, "glyphs").ty.sort().dom(ex.read_field(st, self, "glyphs").term))},
     views={"glyphs": lambda o: dict(o.items()), "names": lambda o: set(o.keys())}, notes="glyph set: name -> glyph")
-cls("C15_TOptions", fields={"OffsetX": REAL, "OffsetY": REAL, "ScaleX": REAL, "ScaleY": REAL, "Slant": REAL, "Origin": INT}, notes="TransformationsFilter.options")
+from pyvc.api import Enum  # noqa: E402
+from ufo2ft.filters.transformations import TransformationsFilter as _TF  # noqa: E402
+
+from .c01 import otr  # noqa: E402,F401  (otRound as a spec function)
+
+_ORIGIN = Enum("ufo2ft.filters.transformations:TransformationsFilter.Origin")
+Origin = _TF.Origin
+cls("C15_TOptions", fields={"OffsetX": REAL, "OffsetY": REAL, "ScaleX": REAL, "ScaleY": REAL, "Slant": REAL, "Origin": _ORIGIN},
+    notes="TransformationsFilter.options (Origin: a member of TransformationsFilter.Origin — `start()` converts the number)")
 cls("C15_TFilter", fields={"options": Ref("C15_TOptions"), "context": Ref("C02_Ctx")}, repo="ufo2ft.filters.transformations:TransformationsFilter",
+    derived={"Origin": lambda ex, st, self: Val.obj(_TF.Origin)},  # the nested enum class, reached as `self.Origin` in the code
     notes="TransformationsFilter instance")
 CLASSES["C02_Ctx"].fields.update({"matrix": Ref("Transform"), "modified": Set(STR), "glyphSet": Ref("C15_GlyphSet")})
 
 
-@specfn(REAL, opaque=True, flt=Ref("C15_TFilter"), font=Ref("C02_Font"))
-def origin_height_of(flt, font):
-    """self.get_origin_height(font, self.options.Origin) — uninterpreted (0, capHeight, xHeight or their rounded halves)"""
-    return flt.get_origin_height(font, flt.options.Origin)
+@specfn(REAL, opaque=True, info=Ref("C02_Info"))
+def cap_height_of(info):
+    """getAttrWithFallback(info, 'capHeight') — uninterpreted in the logic (the function is verified under C16)"""
+    from ufo2ft.fontInfoData import getAttrWithFallback
+
+    return getAttrWithFallback(info, "capHeight")
 
 
-# summary used at the call site only (props=[] : NOT verified here — `origin is self.Origin.X` on an IntEnum class attribute is outside
-# the engine; it is a pure function of (font.info, Origin), listed as an assumption and exercised by the run-time harness)
+@specfn(REAL, opaque=True, info=Ref("C02_Info"))
+def x_height_of(info):
+    """getAttrWithFallback(info, 'xHeight') — uninterpreted in the logic (the function is verified under C16)"""
+    from ufo2ft.fontInfoData import getAttrWithFallback
+
+    return getAttrWithFallback(info, "xHeight")
+
+
+@specfn(REAL, info=Ref("C02_Info"), origin=_ORIGIN)
+def origin_height_spec(info, origin):
+    """the height about which scaling / slanting happens: 0, capHeight, xHeight, or their halves rounded half-up (the SPEC of get_origin_height)"""
+    if origin == Origin.BASELINE:
+        return 0
+    if origin == Origin.CAP_HEIGHT:
+        return cap_height_of(info)
+    if origin == Origin.HALF_CAP_HEIGHT:
+        return otr(cap_height_of(info) / 2)
+    if origin == Origin.X_HEIGHT:
+        return x_height_of(info)
+    return otr(x_height_of(info) / 2)
+
+
+@trusted("c15.getAttrWithFallback.heights", "getAttrWithFallback(info, 'capHeight' | 'xHeight') is a function of info (number) [summary; the function is verified under C16]")
+def _gawf_heights(ex, st, args, kwargs, node):
+    info, attr = args
+    if not (attr.is_py and attr.py in ("capHeight", "xHeight")):
+        raise Unsupported("getAttrWithFallback summary: only capHeight / xHeight", node)
+    from pyvc.api import SPECFNS
+
+    f = ex.spec_decl(SPECFNS["cap_height_of" if attr.py == "capHeight" else "x_height_of"])
+    return Val(REAL, f(lift(info)))
+
+
+# UNVERIFIED call-site summary (props=[]): the body tests `origin is self.Origin.BASELINE` ... — `is` between an IntEnum-typed value and an
+# IntEnum member constant (which the engine lifts as a plain int) is `Unsupported` (notes/C01.requests.md item 15).  The summary is now the
+# exact case table `origin_height_spec` (first wave: an opaque symbol); it is exercised natively by the run-time harness of set_context (all
+# five origins, both UFO libraries).  Set _GOH_PROPS = ["C15"] to verify it once the engine supports the test.
+_GOH_PROPS: list = []
 contract(
     "ufo2ft.filters.transformations:TransformationsFilter.get_origin_height",
-    props=[],
-    params={"self": Ref("C15_TFilter"), "font": Ref("C02_Font"), "origin": INT},
+    props=_GOH_PROPS,
+    params={"self": Ref("C15_TFilter"), "font": Ref("C02_Font"), "origin": _ORIGIN},
     returns=REAL,
-    ensures={"value": "result == origin_height_of(self, font)"},
+    globals={"getAttrWithFallback": Val.obj(FuncRef(None, "c15.getAttrWithFallback.heights")), "Origin": _TF.Origin},
+    ensures={
+        "value": "result == origin_height_spec(font.info, origin)",
+        "baseline-is-zero": "implies(origin == Origin.BASELINE, result == 0)",
+        "halves-are-rounded": "implies(origin == Origin.HALF_CAP_HEIGHT, result == otr(cap_height_of(font.info) / 2))",
+    },
+    canaries={"always-zero": "result == 0", "never-x-height": "result != x_height_of(font.info)"},
 )
 
 class _IdentityVal(Val):
@@ -330,7 +383,7 @@ _IDENT_REQ = "Identity.xx == 1 and Identity.xy == 0 and Identity.yx == 0 and Ide
 _O = "self.options"
 _SXp, _SYp = f"({_O}.ScaleX / 100)", f"({_O}.ScaleY / 100)"
 _K = f"(slant_k({_O}.Slant) if {_O}.Slant != 0 else 0)"
-_H = "origin_height_of(self, font)"
+_H = "origin_height_spec(font.info, self.options.Origin)"
 _EXPECTED = [_SXp, "0", f"({_SXp} * {_K})", _SYp, f"({_O}.OffsetX - {_SXp} * {_K} * {_H})", f"({_O}.OffsetY + {_H} - {_SYp} * {_H})"]
 
 contract(
@@ -1066,3 +1119,30 @@ def _pga_build(d):
 
 CONTRACTS[_PGA].runtime = Runtime(_pga_cases, _pga_build)
 CLASSES["C15_Glyph"].views["components"] = lambda o: list(o.components)
+
+# =====================================================================================================
+# PropagateAnchorsFilter.filter: the filter's per-glyph entry point — reports a change iff anchors were appended; through the contract of
+# _propagate_glyph_anchors the "never overrides / only appends" statements hold for the filter call itself.
+
+cls("C15_PCtx", fields={"glyphSet": Ref("C15_GlyphSet"), "processed": Set(STR), "modified": Set(STR), "categories": Ref("C15_Categories")},
+    notes="PropagateAnchorsFilter.context (glyphSet, processed, modified, categories)")
+cls("C15_PFilter", fields={"context": Ref("C15_PCtx")}, notes="PropagateAnchorsFilter instance")
+contract(
+    "ufo2ft.filters.propagateAnchors:PropagateAnchorsFilter.filter",
+    props=["C15"],
+    params={"self": Ref("C15_PFilter"), "glyph": Ref("C15_Glyph")},
+    returns=BOOL,
+    globals={"probe": _PROBE},
+    modifies=["C15_PCtx.processed", "C15_PCtx.modified", "C15_Glyph.anchors", "C15_Anchor.x", "C15_Anchor.y"],
+    requires=[
+        "all(self.context.glyphSet.glyphs[n].name == n for n in self.context.glyphSet.names)",
+        "glyph.name in self.context.glyphSet.glyphs and self.context.glyphSet.glyphs[glyph.name] == glyph",
+    ],
+    ensures={
+        "reports-appended-anchors": "result == (len(glyph.anchors) > len(old(glyph.anchors)))",
+        "no-components-no-change": "implies(len(old(glyph.components)) == 0, not result and glyph.anchors == old(glyph.anchors))",
+        "only-appends": "len(glyph.anchors) >= len(old(glyph.anchors)) and all(glyph.anchors[k] == old(glyph.anchors)[k] for k in range(len(old(glyph.anchors))))",
+        "never-overrides": "implies(any(a.name == probe for a in old(glyph.anchors)), all(glyph.anchors[k].name != probe for k in range(len(old(glyph.anchors)), len(glyph.anchors))))",
+    },
+    canaries={"always-changes": "result"},
+)
